@@ -220,6 +220,26 @@ def export_obs(d):
         except Exception as e:
             problems.append(("check-fails", "directory %s: %s" % (x.id.hex(), e)))
         out["directories"].append([x.id.hex(), [[hx(e.name), e.type, int(e.perms), e.target.hex()] for e in x.entries]])
+    # content data loaded lazily: whenever a content model object carries a loader, calling it gives
+    # bytes that hash to the content's ids (also when the data is present already)
+    for node in d.iter_tree(dedup=False):
+        if node.object_type != "content":
+            continue
+        try:
+            m = node.to_model()
+        except Exception as e:
+            problems.append(("to-model-fails", str(e)[:100]))
+            continue
+        loader = getattr(m, "get_data", None)
+        if loader is None or not isinstance(m, model.Content):
+            continue
+        try:
+            lazy = loader()
+        except Exception as e:
+            problems.append(("lazy-data-raises", "%s: %s: %s" % (m.sha1_git.hex(), type(e).__name__, str(e)[:80])))
+            continue
+        if hashlib.sha1(b"blob %d\x00" % len(lazy) + lazy).digest() != m.sha1_git or (m.data is not None and m.data != lazy):
+            problems.append(("lazy-data-wrong", m.sha1_git.hex()))
     ids = [c[0] for c in out["contents"]] + [s[0] for s in out["skipped"]] + [x[0] for x in out["directories"]]
     if len(ids) != len(set(ids)):
         problems.append(("export-duplicate-id", ""))
